@@ -9,13 +9,17 @@ CONSTANTS MaxList
 
 \* variants of a scalar of width w: zeros, 00..01, escape bytes, all FF, position coded
 UVar(w) == << [i \in 1..w |-> 0], [i \in 1..w |-> IF i = w THEN 1 ELSE 0], [i \in 1..w |-> IF i % 2 = 1 THEN 125 ELSE 126],
-              [i \in 1..w |-> 255], [i \in 1..w |-> 16 * i + i] >>
-BcdVar == << <<36, 16, 1, 35, 89, 89>>, <<0, 1, 1, 0, 0, 0>>, <<153, 18, 49, 0, 0, 1>>, <<37, 2, 40, 18, 0, 48>>, <<32, 7, 7, 25, 35, 89>> >>
-StrVar == << <<>>, <<65>>, <<49, 50, 55, 46, 48, 46, 48, 46, 49>>, <<126, 125, 32, 47>>, [i \in 1..40 |-> 96 + (i % 26)] >>
-RestVar == << <<>>, <<1>>, <<126, 125, 0, 255>>, <<48, 49, 99, 100>>, [i \in 1..30 |-> i] >>
-TextVar(mx) == << <<>>, <<65>>, Mat([i \in 1..(IF mx < 8 THEN mx ELSE 8) |-> 48 + i]), Mat([i \in 1..mx |-> 64 + i]), <<126, 125>> >>
-FStrVar(w) == << <<>>, <<65>>, Mat([i \in 1..w |-> 48 + (i % 10)]), (IF w >= 2 THEN <<126, 125>> ELSE <<126>>), Mat([i \in 1..(w \div 2) |-> 97 + (i % 26)]) >>
-NVariants == 5
+              [i \in 1..w |-> 255], [i \in 1..w |-> 16 * i + i], [i \in 1..w |-> 128], [i \in 1..w |-> IF i = 1 THEN 1 ELSE 104] >>   \* .. sign bits; 360 in two bytes
+BcdVar == << <<36, 16, 1, 35, 89, 89>>, <<0, 1, 1, 0, 0, 0>>, <<153, 18, 49, 0, 0, 1>>, <<37, 2, 40, 18, 0, 48>>, <<32, 7, 7, 25, 35, 89>>,
+             <<105, 18, 49, 35, 89, 89>>, <<112, 1, 1, 0, 0, 0>> >>                          \* years 69 / 70: two-digit-year pivots
+StrVar == << <<>>, <<65>>, <<49, 50, 55, 46, 48, 46, 48, 46, 49>>, <<126, 125, 32, 47>>, [i \in 1..40 |-> 96 + (i % 26)],
+             <<49, 50, 51>> \o [i \in 1..24 |-> 0], [i \in 1..255 |-> 65 + (i % 26)] >>        \* NUL padding inside a counted string; the longest counted string
+RestVar == << <<>>, <<1>>, <<126, 125, 0, 255>>, <<48, 49, 99, 100>>, [i \in 1..30 |-> i], <<0, 0, 0>>, [i \in 1..300 |-> i % 251] >>
+TextVar(mx) == << <<>>, <<65>>, Mat([i \in 1..(IF mx < 8 THEN mx ELSE 8) |-> 48 + i]), Mat([i \in 1..mx |-> 64 + i]), <<126, 125>>,
+                  <<32>>, Mat([i \in 1..(mx \div 2) |-> 97 + i]) >>
+FStrVar(w) == << <<>>, <<65>>, Mat([i \in 1..w |-> 48 + (i % 10)]), (IF w >= 2 THEN <<126, 125>> ELSE <<126>>), Mat([i \in 1..(w \div 2) |-> 97 + (i % 26)]),
+                 Mat([i \in 1..(w - 1) |-> 66]), <<32>> >>
+NVariants == 7
 
 \* list lengths: 0..MaxList for the ordinary variants; the long variants sit at the boundaries of narrow index arithmetic
 \* (127 / 128 signed byte, 255 the largest one-byte count, 256 where the count field is wider)
@@ -27,7 +31,7 @@ RECURSIVE ValueOf(_, _, _)
 RECURSIVE Fix(_, _)
 \* value of layout L where the field at (flat) position pick gets variant var, all others variant base
 Variant(f, var) == CASE f.k = "u" -> UVar(f.w)[var] [] f.k = "raw" -> UVar(f.w)[var] [] f.k = "bcd" -> BcdVar[var]
-                     [] f.k = "lstr" -> StrVar[var] [] f.k = "rest" -> RestVar[var]
+                     [] f.k = "lstr" -> (IF "min" \in DOMAIN f /\ Len(StrVar[var]) < f.min THEN StrVar[2] ELSE StrVar[var]) [] f.k = "rest" -> RestVar[var]
                      [] f.k = "fstr" -> FStrVar(f.w)[var] [] f.k = "trest" -> TextVar(f.mx)[var] [] f.k = "reclen" -> UVar(f.w)[1]
                      [] f.k = "items" -> LET c == Count(f, var) IN
                                          Mat([i \in 1..(IF c < f.min THEN f.min ELSE c) |-> ValueOf(f.item, 0, ((var + i) % NVariants) + 1)])
@@ -49,11 +53,14 @@ Fix(L, v) ==
 ParamContentOf(id) == LET w == ParamWidth(id) IN
                       IF w = 0 THEN (IF id \in KnownIds THEN <<97, 98, 49, 46>> ELSE <<1, 2, 3>>)
                       ELSE [i \in 1..w |-> (id + 16 * i) % 256]
-Prm(id) == [id |-> id, b |-> ParamContentOf(id)]
+Prm(id) == [id |-> id, b |-> ParamContentOf(id), known |-> id \in KnownIds]
 ExtraIds == {42, 43, 8, 61440}                  \* 0x002A / 0x002B reserved, 0x0008, 0xF000
 ParamSets == {{Prm(id)} : id \in KnownIds \cup ExtraIds}
              \cup {{Prm(a), Prm(b)} : a \in {41, 42, 43}, b \in {44, 8, 272}}
              \cup {{Prm(id) : id \in KnownIds \cup ExtraIds}} \cup {{}}
+             \* ids next to table ids that are not themselves in the table (each kept verbatim, side by side with its neighbour)
+             \cup {{Prm(272), Prm(273)}, {Prm(273), Prm(274), Prm(511)}, {Prm(id) : id \in 256..288}, {Prm(id) : id \in 0..48},
+                   {Prm(id) : id \in {117, 118, 119, 120, 121, 122, 123, 124, 125, 126, 127}}}
 
 VARIABLES t, pick, var
 Init == \/ t \in Types /\ pick = 0 /\ var = 1
